@@ -149,6 +149,8 @@ class Case:
             return self.hybrid(task)
         if routine == "jacobi":
             return self.jacobi(task)
+        if routine == "theta":
+            return self.theta(task)
         routine, N, N_active, tptype, ignore, soft, G, pattern, pset, ghosts, layout = task
         V = []
         tag = "%s N=%d N_active=%d type=%d ignore=%d soft=%g G=%g masses=%s pos=%d ghosts=%s roots=%s" % (routine, N, N_active, tptype, ignore, soft, G, pattern, pset, ghosts, layout)
@@ -165,6 +167,20 @@ class Case:
         K = 16.0 + 2 * N + 4 * math.sqrt(N * nimg)     # N x images summands, accumulated in a routine-specific order
         self.compare(got, ref, sabs, N, K, V, "force:%s:type%d:ignore%d:%s" % (routine, tptype, ignore, "ghost" if tuple(ghosts) != (0, 0, 0) else "noghost"), tag)
         na = N if N_active == -1 else N_active
+        if V and routine == "tree" and (na != N or ignore != 0):
+            # is it the sum over all particles as if all were active and no pair were skipped?  (the tree walk knows neither)
+            r2, s2 = reference(G, soft, m, X, -1, tptype, 0, tuple(ghosts), box or (0, 0, 0))
+            V2 = []
+            self.compare(got, r2, s2, N, K, V2, "x", tag)
+            if not V2:
+                which = [w for w, c in (("N_active", na != N), ("gravity_ignore_terms", ignore != 0)) if c]
+                V = [("force:tree:%s-ignored" % "+".join(which), "the tree routine returns the sum over all particles as sources and all pairs, %s is not honoured; e.g. %s" % (" and ".join(which), V[0][1]))]
+        if V and routine == "compensated" and tuple(ghosts) != (0, 0, 0):
+            r2, s2 = reference(G, soft, m, X, N_active, tptype, ignore, (0, 0, 0), (0, 0, 0))
+            V2 = []
+            self.compare(got, r2, s2, N, K, V2, "x", tag)
+            if not V2:
+                V = [("force:compensated:ghost-images-ignored", "the compensated routine returns the sum without the ghost-box images; e.g. %s" % V[0][1])]
         if not V and na == N and ignore == 0 and N >= 2:
             # all active: mass-weighted accelerations sum to zero
             for k in range(3):
@@ -174,6 +190,71 @@ class Case:
                     V.append(("momentum:%s" % routine, "sum m_i a_i = %.3g in component %d although all particles are active (scale %.3g) [%s]" % (tot, k, scale, tag)))
                     break
         return V, 1 if N >= 2 else 0
+
+    # ------------------------------------------------------------------ tree at finite opening angle
+    def theta(self, task):
+        """REB_GRAVITY_TREE with opening angle theta > 0 on clustered particles: the error against the direct softened sum obeys the
+        rigorous monopole (centre-of-mass expansion) bound.  A cell is used unopened only if w <= theta d (d: distance to its centre
+        of mass); its members are within sqrt(3) w of that centre of mass, the dipole term vanishes, and Taylor's theorem for
+        f(x) = x/(x^2+eps^2)^(3/2) gives |error| <= 12 G sum_k m_k s_k^2 sup g, g(x) = x/(x^2+eps^2)^(5/2), where for a source at distance
+        r_k from the target s_k <= t r_k/(1-t), the segment stays beyond r_k (1-t)/(1+t), t = sqrt(3) theta."""
+        _, lay, eps, theta, G, pattern = task
+        rebound = self.rebound
+        V = []
+        tag = "tree theta=%g layout=%d softening=%g G=%g masses=%s" % (theta, lay, eps, G, pattern)
+        # deterministic clustered layout: 6 clusters of 5 (extent ~0.02) and 4 single particles in a root box of 200
+        X = []
+        st = 12345 + 977 * lay
+        def nxt():
+            nonlocal st
+            st = (st * 1103515245 + 12345) % (2 ** 31)
+            return st / 2.0 ** 31
+        for c in range(6):
+            cx, cy, cz = [(nxt() - 0.5) * 120.0 for _ in range(3)]
+            for k in range(5):
+                X.append((cx + (nxt() - 0.5) * 0.02, cy + (nxt() - 0.5) * 0.02, cz + (nxt() - 0.5) * 0.02))
+        for k in range(4):
+            X.append(tuple((nxt() - 0.5) * 150.0 for _ in range(3)))
+        N = len(X)
+        m = [1.0] * N if pattern == "equal" else [10.0 ** (-(i % 5)) for i in range(N)]
+        sim = rebound.Simulation()
+        sim.configure_box(200.0, 1, 1, 1)
+        sim.gravity = "tree"
+        sim.opening_angle2 = theta * theta
+        sim.G = G
+        sim.softening = eps
+        for i in range(N):
+            sim.add(m=m[i], x=X[i][0], y=X[i][1], z=X[i][2])
+        self.cl.reb_simulation_update_tree(ctypes.byref(sim))
+        self.cl.reb_simulation_update_tree_gravity_data(ctypes.byref(sim))
+        self.cl.reb_simulation_update_acceleration(ctypes.byref(sim))
+        rb.drain_messages(sim)
+        got = self.acc(sim)
+        ref, sabs = reference(G, eps, m, X, -1, 0, 0, (0, 0, 0), (0, 0, 0))
+        t = LD(math.sqrt(3.0)) * LD(theta)
+        q = (1 - t) / (1 + t)
+        e2 = LD(eps) * LD(eps)
+        Xl = np.array(X, dtype=LD)
+        approx = 0
+        for i in range(N):
+            B = LD(0)
+            for k in range(N):
+                if k == i:
+                    continue
+                d = Xl[i] - Xl[k]
+                r = np.sqrt((d * d).sum())
+                sk = t * r / (1 - t)
+                rho = max(q * r, LD(eps) / 2)
+                B += 12 * LD(G) * LD(m[k]) * sk * sk * rho / (rho * rho + e2) ** LD(2.5)
+            err = math.sqrt(sum((got[i][c] - float(ref[i][c])) ** 2 for c in range(3)))
+            rnd = 64 * U * sum(float(sabs[i][c]) for c in range(3))
+            if err > rnd:
+                approx = 1
+            if not err <= float(B) + rnd:
+                V.append(("tree-multipole-bound", "particle %d: |a_tree - a_direct| = %.3g exceeds the monopole bound %.3g (|a_direct| = %.3g) [%s]" % (
+                    i, err, float(B), math.sqrt(sum(float(ref[i][c]) ** 2 for c in range(3))), tag)))
+                break
+        return V, approx
 
     # ------------------------------------------------------------------ MERCURIUS / TRACE splittings
     def jacobi(self, task):
@@ -342,11 +423,11 @@ def run(ctx):
                             for G in (1.0, 2.5):
                                 for pattern in ("equal", "geometric", "testzero", "zeroactive"):
                                     for pset in (0, 1):
-                                        if routine == "tree" and (N_active not in (-1, N) or ignore != 0):
-                                            continue    # the walk has no notion of test particles or skipped pairs
-                                        if routine == "tree" and pattern in ("zeroactive", "testzero") and False:
-                                            continue
-                                        ghs = GHOSTS if routine != "compensated" else [(0, 0, 0)]
+                                        ghs = GHOSTS
+                                        if routine == "tree" and (N_active not in (-1, N) or ignore != 0) and (pset != 0 or soft != 0.0 or G != 1.0):
+                                            continue    # the walk has no notion of test particles or skipped pairs (recorded finding): a sub-lattice suffices
+                                        if routine == "compensated" and (pset != 0 or G != 1.0):
+                                            ghs = [(0, 0, 0)]   # no ghost-box images in this routine (recorded finding): a sub-lattice suffices
                                         for gh in ghs:
                                             if ctx.tier == "quick" and gh == (2, 2, 1) and (G != 1.0 or soft != 0.0):
                                                 continue
@@ -361,6 +442,13 @@ def run(ctx):
             for pattern in ("equal", "geometric", "testzero"):
                 for pset in (0, 1):
                     tasks.append(("jacobi", N, G, pattern, pset))
+    # tree at finite opening angle
+    for lay in ((0, 1) if ctx.tier == "quick" else (0, 1, 2, 3, 4, 5)):
+        for eps in (0.0, 0.5, 5.0):
+            for theta in (0.01, 0.03):
+                for G in (1.0, 2.5):
+                    for pattern in ("equal", "geometric"):
+                        tasks.append(("theta", lay, eps, theta, G, pattern))
     # hybrid splittings
     for routine in ("mercurius", "trace"):
         for N in (2, 3, 4, 5):
@@ -371,34 +459,42 @@ def run(ctx):
                             members = list(range(1, N))
                             for r in range(1, len(members) + 1):
                                 for enc in itertools.combinations(members, r):
-                                    if routine == "mercurius":
-                                        for L in (("mercury", "C4", "C5", "infinity") if ctx.tier == "thorough" else ("mercury", "C5")):
-                                            tasks.append((routine, N, N_active, tptype, 0.0, 1.0, pattern, pset, list(enc), L))
-                                    else:
-                                        npairs = len(enc) * (len(enc) - 1) // 2
-                                        for mask in range(2 ** npairs):
-                                            tasks.append((routine, N, N_active, tptype, 0.0, 1.0, pattern, pset, list(enc), mask))
+                                    for soft, G in ((0.0, 1.0), (0.1, 2.5)):
+                                        if routine == "mercurius":
+                                            for L in (("mercury", "C4", "C5", "infinity") if ctx.tier == "thorough" else ("mercury", "C5")):
+                                                tasks.append((routine, N, N_active, tptype, soft, G, pattern, pset, list(enc), L))
+                                        else:
+                                            npairs = len(enc) * (len(enc) - 1) // 2
+                                            for mask in range(2 ** npairs):
+                                                tasks.append((routine, N, N_active, tptype, soft, G, pattern, pset, list(enc), mask))
     tasks = ctx.shuffled(tasks)
     ctx.note("cases: %d" % len(tasks))
     res = pool.run_tasks(Case(rebound), tasks, timeout=120, chunk=128, progress=lambda d, n: ctx.note("cases %d/%d" % (d, n)))
     n = 0
+    ntheta = [0, 0]
     for t, r in zip(tasks, res):
         if r[0] != "ok":
             ctx.violation("case-%s:%s" % (r[0], t[0]), "%s in %s: %s" % (r[0], t, str(r[1])[-600:]), {"task": list(t)})
             continue
         V, k = r[1]
         n += k
+        if t[0] == "theta":
+            ntheta[0] += 1
+            ntheta[1] += k
         for sig, what in V:
             ctx.violation(sig, what, {"task": list(t)})
     cov = {
         "evaluations": len(tasks), "distinct_nontrivial": n,
         "rule": "JACOBI routine on N 2..6(9) x G x 3 mass patterns x 2 position sets against the Jacobi transform of the pairwise sum plus the Kepler term; routine {basic, compensated, tree(theta=0)} x N 0..5(9) x N_active {-1,0..N} x testparticle_type x gravity_ignore_terms x softening{0,0.1} x G{1,2.5} x 4 mass patterns x 2 position sets x ghost boxes {0, (1,0,0), (1,1,0), (2,2,1)} x root layouts, "
-                "restricted to the sub-lattice each routine supports; MERCURIUS mode0+mode1 for every encounter subset and switching function, TRACE interaction+Kepler for every encounter subset and every 0/1 pattern of current_Ks inside it; non-trivial = N>=2",
+                "(TREE with N_active<N or ignored terms and COMPENSATED with ghost boxes on a sub-lattice: recorded findings); MERCURIUS mode0+mode1 for every encounter subset and switching function, TRACE interaction+Kepler for every encounter subset and every 0/1 pattern of current_Ks inside it, each with softening 0 / G 1 and softening 0.1 / G 2.5; "
+                "TREE at opening angle {0.01,0.03} x softening {0,0.5,5} x G x 2 mass patterns x clustered layouts (34 particles) against the rigorous monopole bound; non-trivial = N>=2 (finite angle: at least one cell used unopened)",
+        "finite_angle_cases": ntheta[0], "finite_angle_cases_with_unopened_cells": ntheta[1],
         "samples": [list(tasks[0]), list(tasks[-1])], "exhaustive": True,
     }
     return ctx.finish(LEVEL, cov, assumptions=[
         "reference = the pairwise sum of the statement evaluated in numpy.longdouble (64-bit mantissa); tolerance (16+2N+4 sqrt(N x images))*u*sum|terms|",
-        "validity filter: TREE only with all particles active and ignore_terms=0; COMPENSATED without ghost boxes; self-images excluded for every routine",
+        "self-images excluded for every routine; TREE with N_active<N / gravity_ignore_terms and COMPENSATED with ghost boxes deviate from the statement and are recorded findings (classified by comparing with the sum the routine does compute)",
+        "finite opening angle: |a_tree - a_direct| <= 12 G sum_k m_k s_k^2 sup g (Taylor remainder of the centre-of-mass expansion, derived in the check) -- rigorous, therefore loose: it catches order-one errors of unopened cells, not small ones",
         "MERCURIUS/TRACE: heliocentric, encounter members within the switching radii of each other and every other particle outside them, as the integrators guarantee",
     ])
 
